@@ -22,6 +22,9 @@ type stallItem struct {
 	Pending int  `json:"pending"`
 	RecvErr bool `json:"recv_err"`
 	Trials  int  `json:"trials"`
+	// ResubFail: no held Send; instead the stream fails, the FIRST Send on the new stream (the re-subscription) fails, that
+	// stream fails too, and the next one works; then the lookups are made
+	ResubFail bool `json:"resub_fail"`
 }
 
 type stallCase struct {
@@ -30,14 +33,14 @@ type stallCase struct {
 }
 
 type stallRes struct {
-	QueueMax     int    `json:"queue_max"`      // largest queue length seen while the sender was held
-	HotDuring    string `json:"hot_during"`     // lookup of a cached name while the sender is held: val | err | hang
-	Returned     int    `json:"returned"`       // lookups that had returned 5 s after the Send was let go
-	Stuck        int    `json:"stuck"`          // lookups that had not
-	HotAfter     string `json:"hot_after"`      // lookup of the cached name after that: val | err | hang
-	Streams      int    `json:"streams"`        // streams opened
-	ResubOnNew   bool   `json:"resub_on_new"`   // the new stream received a request (when one was opened)
-	TrialsFailed int    `json:"trials_failed"`  // of Trials repetitions, how many ended with stuck lookups or a hanging cached lookup
+	QueueMax     int    `json:"queue_max"`     // largest queue length seen while the sender was held
+	HotDuring    string `json:"hot_during"`    // lookup of a cached name while the sender is held: val | err | hang
+	Returned     int    `json:"returned"`      // lookups that had returned 5 s after the Send was let go
+	Stuck        int    `json:"stuck"`         // lookups that had not
+	HotAfter     string `json:"hot_after"`     // lookup of the cached name after that: val | err | hang
+	Streams      int    `json:"streams"`       // streams opened
+	ResubOnNew   bool   `json:"resub_on_new"`  // the new stream received a request (when one was opened)
+	TrialsFailed int    `json:"trials_failed"` // of Trials repetitions, how many ended with stuck lookups or a hanging cached lookup
 }
 
 func stallOnce(it stallItem) stallRes {
@@ -58,9 +61,11 @@ func stallOnce(it stallItem) stallRes {
 		return res
 	}
 	blk := make(chan struct{})
-	st.mu.Lock()
-	st.sendBlock = blk
-	st.mu.Unlock()
+	if !it.ResubFail {
+		st.mu.Lock()
+		st.sendBlock = blk
+		st.mu.Unlock()
+	}
 
 	hot := func(wait time.Duration) string {
 		done := make(chan getRet, 1)
@@ -104,6 +109,35 @@ func stallOnce(it stallItem) stallRes {
 		time.Sleep(time.Millisecond)
 	}
 	time.Sleep(20 * time.Millisecond)
+	if it.ResubFail {
+		ads.mu.Lock()
+		ads.failFirst = 1
+		ads.mu.Unlock()
+		st.recvCh <- recvItem{err: fmt.Errorf("fake: recv failed")}
+		dl := time.Now().Add(2 * time.Second)
+		for ads.numStreams() < 2 && time.Now().Before(dl) {
+			time.Sleep(time.Millisecond)
+		}
+		if s1 := ads.stream(1); s1 != nil {
+			// the re-subscription's Send fails; a stream whose Send failed fails its Recv too
+			for dl := time.Now().Add(2 * time.Second); time.Now().Before(dl); {
+				s1.mu.Lock()
+				used := s1.sendErrs == 0
+				s1.mu.Unlock()
+				if used {
+					break
+				}
+				time.Sleep(time.Millisecond)
+			}
+			time.Sleep(5 * time.Millisecond)
+			s1.recvCh <- recvItem{err: fmt.Errorf("fake: recv failed")}
+			// the receiver may be stuck (that is what this scenario is about): bounded wait
+			for dl := time.Now().Add(1 * time.Second); ads.numStreams() < 3 && time.Now().Before(dl); {
+				time.Sleep(time.Millisecond)
+			}
+			time.Sleep(10 * time.Millisecond)
+		}
+	}
 	if it.RecvErr {
 		st.recvCh <- recvItem{err: fmt.Errorf("fake: recv failed")}
 		dl := time.Now().Add(2 * time.Second)
@@ -132,9 +166,11 @@ func stallOnce(it stallItem) stallRes {
 	}
 	res.HotDuring = hot(700 * time.Millisecond)
 	// let the held Send go
-	st.mu.Lock()
-	st.sendBlock = nil
-	st.mu.Unlock()
+	if !it.ResubFail {
+		st.mu.Lock()
+		st.sendBlock = nil
+		st.mu.Unlock()
+	}
 	close(blk)
 	fin := make(chan struct{})
 	go func() { wg.Wait(); close(fin) }()
@@ -146,7 +182,15 @@ func stallOnce(it stallItem) stallRes {
 	res.Stuck = it.Pending + 1 - res.Returned
 	res.HotAfter = hot(2 * time.Second)
 	res.Streams = ads.numStreams()
-	if s2 := ads.stream(1); s2 != nil {
+	if it.ResubFail {
+		if s3 := ads.stream(2); s3 != nil {
+			dl := time.Now().Add(2 * time.Second)
+			for len(s3.sentCopy()) == 0 && time.Now().Before(dl) {
+				time.Sleep(time.Millisecond)
+			}
+			res.ResubOnNew = len(s3.sentCopy()) > 0
+		}
+	} else if s2 := ads.stream(1); s2 != nil {
 		dl := time.Now().Add(2 * time.Second)
 		for len(s2.sentCopy()) == 0 && time.Now().Before(dl) {
 			time.Sleep(time.Millisecond)
